@@ -1471,7 +1471,7 @@ def table_check_attrs(ctx: "Wtp") -> None:
     if not check:
         return
     node.children = []
-    parse_attrs(node, attribute_string)
+    parse_attrs(node, attribute_string, ctx)
 
 
 def table_row_check_attrs(ctx: "Wtp") -> None:
@@ -1488,7 +1488,7 @@ def table_row_check_attrs(ctx: "Wtp") -> None:
     if not check:
         return
     node.children = []
-    parse_attrs(node, attribute_string)
+    parse_attrs(node, attribute_string, ctx)
 
 
 def table_caption_fn(ctx: "Wtp", token: str) -> None:
@@ -1631,7 +1631,7 @@ def table_cell_fn(ctx: "Wtp", token: str) -> None:
                     # Using the walrus operator and pop()ing without return
                     # is just to make the type-checker happy without using
                     # an assert that attrs is definitely a str...
-                    parse_attrs(node, attrs)
+                    parse_attrs(node, attrs, ctx)
                 return
             else:
                 return text_fn(ctx, token)
@@ -1869,7 +1869,9 @@ def list_fn(ctx: "Wtp", token: str) -> None:
     node.sarg = token
 
 
-def parse_attrs(node: WikiNode, attrs: str) -> None:
+def parse_attrs(
+    node: WikiNode, attrs: str, ctx: Optional["Wtp"] = None
+) -> None:
     # XXX this could be a WikiNode method?
     """Parses HTML tag attributes from ``attrs`` and adds them to
     ``node.attrs``."""
@@ -1886,6 +1888,9 @@ def parse_attrs(node: WikiNode, attrs: str) -> None:
         value = m.group(2) or ""
         if value.startswith("'") or value.startswith('"'):
             value = value[1:-1]
+        if ctx is not None:
+            # expand magic characters left by unexpanded templates etc.
+            value = ctx._finalize_expand(value)
         node.attrs[name] = value
 
 
@@ -1987,7 +1992,7 @@ def tag_fn(ctx: "Wtp", token: str) -> None:
         # Handle <pre> start tag
         if name == "pre":
             node = _parser_push(ctx, NodeKind.PRE)
-            parse_attrs(node, attrs)
+            parse_attrs(node, attrs, ctx)
             if also_end:
                 _parser_pop(ctx, False)
             else:
@@ -2031,7 +2036,7 @@ def tag_fn(ctx: "Wtp", token: str) -> None:
         # Handle other start tag.  We push HTML tags as HTML nodes.
         node = _parser_push(ctx, NodeKind.HTML)
         node.sarg = name
-        parse_attrs(node, attrs)
+        parse_attrs(node, attrs, ctx)
 
         # If the tag contains a trailing slash or it is an empty tag,
         # close it immediately.
